@@ -72,8 +72,10 @@ impl GeneratedApp {
             directory.to_path_buf()
         };
         // Relative paths are computed against this directory further down,
-        // which requires it to be free of `.` and `..` components.
-        let pkg_directory = Self::normalize_lexically(&pkg_directory);
+        // which requires it to be free of `.` and `..` components and of symbolic links:
+        // `cargo` refuses to load a workspace whose member is listed through a link
+        // ("package is a member of the wrong workspace").
+        let pkg_directory = Self::resolve(&pkg_directory);
 
         Self::normalize_path_dependencies(&mut cargo_toml, &pkg_directory)?;
         Self::inject_app_into_workspace_members(&workspace, &pkg_directory, writer)?;
@@ -88,23 +90,33 @@ impl GeneratedApp {
         Ok(())
     }
 
-    /// Resolve `.` and `..` components without touching the filesystem.
-    fn normalize_lexically(path: &Path) -> PathBuf {
+    /// Resolve `.`, `..` and symbolic links, component by component.
+    ///
+    /// The directory (or its last few components) may not exist yet: the part that
+    /// exists is canonicalized, the rest is resolved lexically. The outcome doesn't depend
+    /// on whether the tail has been created already, i.e. it's the same on the first
+    /// and on all later runs.
+    fn resolve(path: &Path) -> PathBuf {
         use std::path::Component;
 
-        let mut normalized = PathBuf::new();
+        let mut resolved = PathBuf::new();
         for component in path.components() {
             match component {
                 Component::CurDir => {}
                 Component::ParentDir => {
-                    if !normalized.pop() {
-                        normalized.push(component);
+                    if !resolved.pop() {
+                        resolved.push(component);
                     }
                 }
-                c => normalized.push(c),
+                c => {
+                    resolved.push(c);
+                    if let Ok(real) = resolved.canonicalize() {
+                        resolved = real;
+                    }
+                }
             }
         }
-        normalized
+        resolved
     }
 
     /// All path dependencies should be relative to the root of the workspace in which
